@@ -493,3 +493,15 @@ Proof.
   rewrite Nat2N.inj_succ, N2Nat.id, N.pow_succ_r'.
   pose proof (N.size_gt n). lia.
 Qed.
+
+(* membership form of the specification: p is reported iff it classifies a node of the tree none of whose proper
+   ancestors is flagged *)
+Lemma outermost_In_iff t p :
+  In p (outermost t) <-> exists x, In x (preorder_anc false t) /\ fst x = false /\ classify (snd x) = Some p.
+Proof.
+  rewrite <- outermost_decl_eq. unfold outermost_decl. rewrite in_flat_map. split.
+  - intros [x [Hin Hp]]. exists x. split; [exact Hin|]. unfold report_of in Hp.
+    destruct (fst x); [destruct Hp|]. destruct (classify (snd x)) as [q|]; [|destruct Hp].
+    destruct Hp as [->|[]]. split; reflexivity.
+  - intros [x [Hin [Hf Hc]]]. exists x. split; [exact Hin|]. unfold report_of. rewrite Hf, Hc. left. reflexivity.
+Qed.
